@@ -78,6 +78,7 @@ FLOORS = {
     'doc:ns': (0.35, 'doc:case'),
     'doc:nonxml-ws': (0.4, 'doc:case'),
     'doc:backend:lxml': (0.3, 'doc:case'),
+    'coll:codepoint-equal': (0.12, 'coll:case'),
     'coll:non-ascii-case': (0.6, 'coll:case'),
     'coll:case-variant-needle': (0.12, 'coll:case'),
     'coll:html-default': (0.2, 'coll:case'),
@@ -238,7 +239,7 @@ def _mk_call(mx: _Mix, pool, versions=('1.0', '2.0', '3.0', '3.1'), lit_ok=True)
     args = _mk_args(mx, pool, ver, fn)
     lit = lit_ok and mx.below(5) == 0
     case = {'ver': ver, 'fn': fn, 'args': args, 'lit': lit}
-    if ver != '1.0' and fn in _COLLATED and mx.below(3) == 0:
+    if ver != '1.0' and (fn in _COLLATED or fn in _IGNORE_DC) and mx.below(3) == 0:
         case['dc'] = 'html'          # parser built with default_collation = html-ascii-case-insensitive
     return case
 
@@ -302,6 +303,7 @@ def _mk_args(mx: _Mix, pool, ver, fn) -> list:
     return args
 
 
+_IGNORE_DC = ('codepoint-equal', 'string-to-codepoints')     # must ignore the parser's default collation
 _REUSE_WRAPS = ['plain', 'plain', 'for', 'items']
 _NO_ITER = ('codepoints-to-string', 'string-to-codepoints')      # sequence valued: plain re-evaluation only
 REUSE_BATCH = 8
@@ -360,7 +362,7 @@ def _mk_law(mx: _Mix, pool) -> dict:
     ver = mx.pick(['2.0', '3.0', '3.1'] if law in ('cp-roundtrip', 'compare') else ['1.0', '2.0', '3.0', '3.1'])
     s, t = _mk_pair(mx, pool)
     case = {'law': law, 'ver': ver, 's': s, 't': t, 'n': _mk_num(mx, pool)}
-    if ver != '1.0' and law == 'split' and mx.below(2) == 0:
+    if ver != '1.0' and law in ('split', 'compare', 'cp-roundtrip') and mx.below(2) == 0:
         case['dc'] = 'html'
     return case
 
@@ -709,6 +711,8 @@ def _classify(case):
     elif fn in _SEARCH:
         s, t = _sval(args[0]) or '', _sval(args[1]) or ''
         coll = args[2][1] if len(args) > 2 else None
+        if coll is None and case.get('dc', 'cp') == 'html' and fn == 'codepoint-equal':
+            tags.append('search:codepoint-equal-under-html-default')
         if coll is None and case.get('dc', 'cp') == 'html' and fn in _COLLATED:
             coll = 'html'
             tags.append('search:default-collation-html')
@@ -919,7 +923,7 @@ def judge_call(case, rec: Recorder | None = None, prefix='ref') -> list[Disc]:
     base = f'C09/{fn}/{_vgroup(ver)}/{cls}'
     if cls.startswith('coll-html+non-ascii-case'):
         base = f'C09/coll-html/non-ascii-case/{fn}'
-    if case.get('dc', 'cp') == 'html' and fn in _COLLATED and not (case['args'] and case['args'][-1][0] == 'coll'):
+    if case.get('dc', 'cp') == 'html' and (fn in _COLLATED or fn in _IGNORE_DC) and not (case['args'] and case['args'][-1][0] == 'coll'):
         base += '/default-collation'
     try:
         dc = case.get('dc', 'cp')
@@ -1078,6 +1082,10 @@ def judge_lxml(case, rec=None):
 # laws named by the property (metamorphic, through nested expressions)
 # --------------------------------------------------------------------------
 
+class _LawDone(Exception):
+    pass
+
+
 def judge_law(case, rec: Recorder | None = None) -> list[Disc]:
     law, ver, s, t = case['law'], case['ver'], case['s'], case['t']
     discs: list[Disc] = []
@@ -1130,6 +1138,17 @@ def judge_law(case, rec: Recorder | None = None) -> list[Disc]:
             if got is not None and got is not True:
                 discs.append(Disc(f'C09/laws/prefix/{vg}/value', True, got, f's={s!r} n={nv!r}'))
         elif law == 'compare':
+            if dc == 'html':      # codepoint-equal and the explicit codepoint collation ignore the default collation
+                e = ev('codepoint-equal($s, $t)', {'s': s, 't': t})
+                a = ev("compare($s, $t, '" + CP_URI + "')", {'s': s, 't': t})
+                c = ev('compare($s, $t)', {'s': s, 't': t})
+                if e is not None and e is not (s == t):
+                    discs.append(Disc(f'C09/laws/compare/{vg}/codepoint-equal-uses-default-collation', s == t, e, f's={s!r} t={t!r}'))
+                if a is not None and (a == 0) != (s == t):
+                    discs.append(Disc(f'C09/laws/compare/{vg}/explicit-codepoint-collation', s == t, a, f's={s!r} t={t!r}'))
+                if c is not None and c != R.compare(s, t, HTML_URI):
+                    discs.append(Disc(f'C09/laws/compare/{vg}/default-collation-ignored', R.compare(s, t, HTML_URI), c, f's={s!r} t={t!r}'))
+                raise _LawDone()
             a = ev('compare($s, $t)', {'s': s, 't': t})
             b = ev('compare($t, $s)', {'s': s, 't': t})
             e = ev('codepoint-equal($s, $t)', {'s': s, 't': t})
@@ -1140,6 +1159,8 @@ def judge_law(case, rec: Recorder | None = None) -> list[Disc]:
                     discs.append(Disc(f'C09/laws/compare/{vg}/codepoint-equal', a == 0, e))
                 elif (a == 0) != (s == t):
                     discs.append(Disc(f'C09/laws/compare/{vg}/zero-iff-identical', s == t, a))
+    except _LawDone:
+        pass
     except Exception as e:
         discs.append(Disc(escape_bucket('C09', e) + f'/laws/{law}/{vg}', 'a value', repr(e)))
     if rec is not None:
@@ -1314,7 +1335,8 @@ _CASE_GROUPS = ['aA', 'bB', 'kK\u212a', 'sS\u017f', 'iI\u0130\u0131', '\xe4\xc4'
                 '\u01c6\u01c5\u01c4', '\xe9\xc9', '\U00010428\U00010400', 'zZ', 'cC', '\u03b2\u0392\u03d0']
 _CASE_OTHER = ['-', '1', ' ', '\u0301', '\U0001F600', '.']
 _GROUP_OF = {c: g for g in _CASE_GROUPS for c in g}
-_COLL_FNS = ['contains', 'starts-with', 'ends-with', 'substring-before', 'substring-after', 'compare', 'agree', 'partition']
+_COLL_FNS = ['contains', 'starts-with', 'ends-with', 'substring-before', 'substring-after', 'compare', 'agree', 'partition',
+             'codepoint-equal', 'codepoint-equal']
 COLL_BATCH = 24
 
 
@@ -1324,7 +1346,7 @@ def _mk_coll(mx: _Mix) -> dict:
     fn = mx.pick(_COLL_FNS)
     k = mx.below(10)
     if k < 7:
-        if fn in ('compare', 'agree') and mx.below(2):
+        if fn in ('compare', 'agree', 'codepoint-equal') and mx.below(2):
             i, j = 0, len(s)
         elif fn == 'starts-with' and mx.below(2):
             i, j = 0, 1 + mx.below(len(s))
@@ -1399,7 +1421,23 @@ def judge_coll_case(case, rec: Recorder | None = None) -> list[Disc]:
     REF = {'contains': R.contains, 'starts-with': R.starts_with, 'ends-with': R.ends_with, 'substring-before': R.substring_before,
            'substring-after': R.substring_after, 'compare': R.compare}
     try:
-        if fn in REF:
+        if fn == 'codepoint-equal':
+            # never collation dependent: only identical code point sequences are equal, whatever the default collation
+            if rec is not None:
+                rec.cls('coll:codepoint-equal')
+                rec.cls('coll:codepoint-equal-html-default' if dc == 'html' else 'coll:codepoint-equal-cp-default')
+            for expr, want in (('codepoint-equal($s, $t)', s == t), ('codepoint-equal(lower-case($s), $s)', s.lower() == s),
+                               ("compare($s, $t, '" + CP_URI + "') = 0", s == t),
+                               ('deep-equal(string-to-codepoints($s), string-to-codepoints($t))', s == t)):
+                r = _evaluate(ver, expr, v, dc=dc)
+                f = expr.split('(')[0] if not expr.startswith('deep') else 'string-to-codepoints'
+                if 'lower-case' in expr and any(ord(c) == 0x3A3 for c in s):
+                    continue
+                if r[0] == 'error':
+                    discs.append(Disc(f'C09/coll/{f}/default-{dc}/error/{r[1]}', want, r[2][:150], f'{expr} s={s!r} t={t!r}'))
+                elif r[1] is not want:
+                    discs.append(Disc(f'C09/coll/{f}/default-{dc}/{cls}/value', want, r[1], f'{expr} s={s!r} t={t!r} default collation={dc}'))
+        elif fn in REF:
             check(fn, REF[fn](s, t, coll))
         elif fn == 'agree':
             c = check('compare', R.compare(s, t, coll))
